@@ -80,6 +80,9 @@ type vsRun struct {
 	extendedAfterConv bool
 	convDone          map[string]map[uint64]bool
 	detached          map[string]int // converter -> side log length at detach+quiescence (unused when <0)
+	importedFiles     map[string]bool // captures whose import completion was delivered
+	maybeFiles        map[string]bool // unused
+	maybeQueue        []string        // import queue when a crash copy was taken with an import job parked
 }
 
 func (r *vsRun) log(f string, a ...any) {
@@ -330,6 +333,10 @@ func (r *vsRun) deliverKind(k string) {
 			}
 		})
 	}
+	var queueBefore []string
+	if k == "import" {
+		_ = r.e.inLoop(func() { queueBefore = append([]string{}, r.e.mgr.importJobs...) })
+	}
 	r.log("deliver %s", k)
 	if _, err := r.e.deliver(k); err != nil {
 		r.fatalf("deliver %s: %v", k, err)
@@ -338,6 +345,16 @@ func (r *vsRun) deliverKind(k string) {
 	switch k {
 	case "import":
 		r.importsDone++
+		var queueAfter int
+		_ = r.e.inLoop(func() { queueAfter = len(r.e.mgr.importJobs) })
+		if r.importedFiles == nil {
+			r.importedFiles = map[string]bool{}
+		}
+		// the job that was delivered may already have been followed by the start of the next one, which takes
+		// the rest of the queue but removes nothing before its own completion
+		for _, n := range queueBefore[:len(queueBefore)-queueAfter] {
+			r.importedFiles[n] = true
+		}
 		// an import job takes the whole queue present when it starts
 		if len(r.pendingImports) != 0 {
 			// which captures were processed is read from the builder below (known pcaps)
@@ -363,6 +380,30 @@ func (r *vsRun) deliverKind(k string) {
 		}
 	case "tag":
 		r.tagDelivers++
+	}
+}
+
+// settleAll delivers parked jobs oldest first through deliverKind (which keeps the bookkeeping) until quiescence.
+func (r *vsRun) settleAll(bound int) {
+	for n := 0; ; n++ {
+		ks := r.e.parkedKinds()
+		if len(ks) == 0 {
+			f, err := r.e.flags()
+			if err != nil {
+				r.fatalf("%v", err)
+			}
+			if !f.imp && !f.tag && !f.merge && !f.conv {
+				return
+			}
+			if err := r.e.sync(); err != nil {
+				r.fatalf("%v", err)
+			}
+			continue
+		}
+		if n >= bound {
+			r.fatalf("no quiescence after %d deliveries (still parked: %v)", n, ks)
+		}
+		r.deliverKind(ks[0])
 	}
 }
 
